@@ -154,18 +154,15 @@ Theorem C01_head_reply_has_no_body : forall h c11 evs k,
 Proof. exact head_reply_no_body. Qed.
 Print Assumptions C01_head_reply_has_no_body.
 
-(* 204 / 304 / 1xx-class status: nothing follows the head PROVIDED no byte arrived in the read that completed it *)
-Theorem C01_bodiless_reply_clean_partial : forall h c11 tail k,
+(* 204 / 304 / 1xx-class status: nothing follows the head, whatever the origin sends after it and however its
+   writes are segmented (bytes read together with the head are dropped by truncateVirginBody()) *)
+Theorem C01_bodiless_reply_clean : forall h c11 evs k,
   h_head h = false -> h_chunked h = false -> expecting_body h = false ->
-  relay h c11 (OSeg [] :: tail) k = (CNoBody, ([], false)).
+  relay h c11 evs k = (CNoBody, ([], false)).
 Proof. exact bodiless_reply_clean. Qed.
-Print Assumptions C01_bodiless_reply_clean_partial.
+Print Assumptions C01_bodiless_reply_clean.
 
-(* ... without that proviso it is FALSE: bytes read together with a 204 head are written to the client after
-   the bodiless reply, on a connection that stays open *)
-Theorem C01_bodiless_extra_bytes_refuted :
-  expecting_body (w_head 204 false) = false /\
-  let '(cf, (stream, closed)) := relay (w_head 204 false) true [OSeg [71; 71; 71]; OEof] 4096 in
-  cf = CNoBody /\ closed = false /\ ref_read cf stream closed = ([], true, [71; 71; 71]).
-Proof. exact bodiless_extra_bytes_refuted. Qed.
-Print Assumptions C01_bodiless_extra_bytes_refuted.
+Example C01_bodiless_hypotheses_satisfiable :
+  h_head (w_head 204 false) = false /\ h_chunked (w_head 204 false) = false /\ expecting_body (w_head 204 false) = false /\
+  relay (w_head 304 false) true [OSeg [71; 71; 71]; OEof] 4096 = (CNoBody, ([], false)).
+Proof. repeat split. Qed.
